@@ -1,12 +1,12 @@
-import Juniper.Proofs.TreeSlotsSplit
+import Juniper.Proofs.TreeSlotsOpsSplit
 /-!
 # Slot-level lemmas (C03 "no retained garbage"): node-level histories
 
 `Clean x`: the node represents *some* entries and children, with all other slots zero. Every enabled
 step of `applyOp` keeps every node of the family clean.
 -/
-namespace Juniper.Proofs.TreeSlots
-open Juniper.Model.BTreeSlots Juniper.Gen
+namespace Juniper.Proofs.TreeSlotsOps
+open Juniper.Model.BTreeSlotsOps Juniper.Gen
 variable {K V C : Type}
 
 /-- every slot from index `n` on is zero -/
@@ -399,4 +399,4 @@ theorem runOps_clean (hf : ZeroingPresent) : ∀ (ops : List (NodeOp K V C)) {fa
       simp only [ha, Option.bind_some] at hr
       exact runOps_clean hf ops (applyOp_clean hf h op ha) hr
 
-end Juniper.Proofs.TreeSlots
+end Juniper.Proofs.TreeSlotsOps
